@@ -114,6 +114,29 @@ CLAIMS["C20"] = (
     "symbols. Behavioural equality across layouts is not decided.",
     "def-use analysis of relocation additions + dominance of offset reads")
 
+CLAIMS["C09"] = (
+    "decides the DATA plumbing structurally: constants are transformed and appended in source "
+    "order; every popped fragment (hence every DATA constant in any statement position) is "
+    "consumed on every successful codegen path; symbols carry a data address and Restore is "
+    "patched with it; the pointer is rewound by CLEAR/RUN; OUT OF DATA and advance-on-success in "
+    "read_data; READ/LET/INPUT share the store emitter. Delivered values are not decided.",
+    "linear-use analysis + emitter/patcher agreement + path-condition checks on MIR")
+CLAIMS["C10"] = (
+    "decides locality and the call frame structurally: parameters are renamed to names the "
+    "scanner cannot produce, one substitution map is threaded through every recursive parse of "
+    "the body, the same names are the Pop targets; every path of the call handler pushes a return "
+    "address before moving pc, arguments reversed above it, parameters popped in order, entry "
+    "address pc+1; error mapping for arity / undefined / direct DEF. Values are not decided.",
+    "argument-threading (def-use) check + must-dominate frame push + emission order on MIR")
+CLAIMS["C18"] = (
+    "decides boundedness structurally: pool vector private and every growth followed by the "
+    "limit check on all paths; variable pool limit dominates inserts; every container field of "
+    "the state structs inventoried with its bound (fail closed on new ones); a full stack is "
+    "cleared on error; defaults free their slots; ON..GOSUB's frame marker is consumed on the "
+    "fall-through path. Whole-program stack neutrality of every statement template is left to "
+    "the thorough tier's scheme analysis; long-run behaviour is not decided.",
+    "must-pass-through (post-dominance) of limit checks + container inventory from ADT types")
+
 NOT_APPLICABLE = {}
 
 
